@@ -87,6 +87,24 @@ let chunks_of (spec : string) (data : string) : n list list =
   done;
   List.rev !acc
 
+(* event list of an `ev:` chunk spec (same script interpretation as harness EvReader) *)
+let is_ev spec = String.length spec > 3 && String.sub spec 0 3 = "ev:"
+let events_of (spec : string) (data : string) : event list =
+  let len = String.length data in
+  let sub a b = let l = ref [] in for i = b - 1 downto a do l := byte_tab.(Char.code data.[i]) :: !l done; !l in
+  let items = List.filter (fun x -> x <> "") (split ',' (String.sub spec 3 (String.length spec - 3))) in
+  let acc = ref [] and pos = ref 0 in
+  List.iter (fun it ->
+      if String.length it > 0 && it.[0] = 'E' then acc := EvErr (it = "Ei") :: !acc
+      else begin
+        let n = max 1 (int_of_string it) in
+        if !pos < len then begin
+          let e = min len (!pos + n) in acc := EvData (sub !pos e) :: !acc; pos := e
+        end
+      end) items;
+  if !pos < len then acc := EvData (sub !pos len) :: !acc;
+  List.rev !acc
+
 (* ---------- source records ---------- *)
 let blanks_dec s = List.map (fun c -> if c = 's' then byte_tab.(32) else byte_tab.(9)) (List.init (String.length s) (String.get s))
 
@@ -168,7 +186,8 @@ let f32_of_bits_cached (b : string) : F32.t =
 let run_case (type c) ~(fmt : string) ~(mode : string) ~(get : string -> string option) ~(obs_field : string -> string option)
     ~(k : int) ~(cell : string -> c) ~(ceqb : c -> c -> bool) ~(zero : c) ~(value : n list -> c)
     ~(alphabet : alphabet) ~(wf_extra : (style * src) list -> n list -> n list -> bool)
-    ~(model_stop : n list list -> c outcome list) ~(model_calls : int -> n list list -> c outcome list) : string =
+    ~(model_stop : n list list -> c outcome list) ~(model_calls : int -> n list list -> c outcome list)
+    ~(model_stop_e : event list -> c outcome list) ~(model_calls_e : int -> event list -> c outcome list) : string =
   let verdict = ref "OK" in
   let set v = if !verdict = "OK" then verdict := v in
   (* the file *)
@@ -235,17 +254,32 @@ let run_case (type c) ~(fmt : string) ~(mode : string) ~(get : string -> string 
                      | None -> ())
                   end)
          | _ ->
-             if not (no_panic obs) then
-               set (Printf.sprintf "PROPFAIL chunking=%s %s" spec
-                      (if List.exists (fun o -> o = OutOfFuel) obs then "hang-call-cap-reached" else "panic"))
+             if not (no_panic obs) then begin
+               (* where the model (if it panics too) places the panic: model-site=<n> of IoJaspar / IoUniprobe *)
+               let site =
+                 try
+                   let m = if is_ev spec then model_calls_e (List.length obs) (events_of spec data)
+                     else model_calls (List.length obs) (mk_stream (chunks_of spec data)) in
+                   (match List.find_opt (fun o -> match o with Panic _ -> true | _ -> false) m with
+                    | Some (Panic k) -> Printf.sprintf " model-site=%d" (int_of_nat k)
+                    | _ -> " model-site=none")
+                 with _ -> " model-site=?" in
+               set (Printf.sprintf "PROPFAIL chunking=%s %s%s" spec
+                      (if List.exists (fun o -> o = OutOfFuel) obs then "hang-call-cap-reached" else "panic") site)
+             end
              else if not (check_c15 stop) then set (Printf.sprintf "PROPFAIL chunking=%s bad-outcome-sequence" spec));
         (* ---- correspondence with the extracted model ---- *)
-        let cs = mk_stream (chunks_of spec data) in
-        let m_stop = model_stop cs in
+        (* error-free chunkings: the error-free models (the ones the C14 theorems are about); scripts with
+           I/O error events: the models over event streams (IoErr.v), proved to coincide with the former on
+           error-free streams *)
+        let ev = is_ev spec in
+        let cs = if ev then [] else mk_stream (chunks_of spec data) in
+        let es = if ev then events_of spec data else [] in
+        let m_stop = if ev then model_stop_e es else model_stop cs in
         if not (outcomes_eqb ceqb stop m_stop) then
           set (Printf.sprintf "DIFF chunking=%s %s" spec (first_diff ceqb stop m_stop))
         else if List.length obs > List.length stop then begin
-          let m_all = model_calls (List.length obs) cs in
+          let m_all = if ev then model_calls_e (List.length obs) es else model_calls (List.length obs) cs in
           if not (outcomes_eqb ceqb obs m_all) then
             set (Printf.sprintf "DIFF chunking=%s after-error %s" spec (first_diff ceqb obs m_all))
         end;
@@ -286,6 +320,9 @@ let () =
                   ~wf_extra:(fun _ _ _ -> true)
                   ~model_stop:(fun cs -> if fmt = "jaspar" then jaspar_read caps cs else jaspar16_read alphabet caps cs)
                   ~model_calls:(fun n cs -> j_calls precord (nat_of_int n) caps cs)
+                  ~model_stop_e:(fun es -> if fmt = "jaspar" then jaspar_read_e caps es else jaspar16_read_e alphabet caps es)
+                  ~model_calls_e:(fun n es -> if fmt = "jaspar" then jaspar_calls_e (nat_of_int n) caps es
+                                   else jaspar16_calls_e alphabet (nat_of_int n) caps es)
             | "uniprobe" ->
                 (* oracle table token -> f32 bits (Rust's str::parse::<f32>, printed by the harness) *)
                 let tab = Hashtbl.create 64 in
@@ -306,6 +343,8 @@ let () =
                   ~wf_extra:(fun rs pre _ -> List.for_all (wf_uniprobe alphabet parse_f32) rs && wf_blank_prefix pre)
                   ~model_stop:(fun cs -> uniprobe_read alphabet parse_f32 cs)
                   ~model_calls:(fun n cs -> uniprobe_calls alphabet parse_f32 false (nat_of_int n) cs)
+                  ~model_stop_e:(fun es -> uniprobe_read_e alphabet parse_f32 es)
+                  ~model_calls_e:(fun n es -> uniprobe_calls_e alphabet parse_f32 (nat_of_int n) es)
             | _ -> "OK"   (* a case of another group *)
           with
           | Bad why -> "DIFF driver: " ^ why
